@@ -99,6 +99,7 @@ fn dispatch_replay(prop: &str, v: &serde_json::Value) -> bool {
         "X" => faults::replay(v),
         "E-bytes" => ebytes::replay(v),
         "H" => hist::replay(v),
+        "K" => crash::replay(v),
         e => {
             eprintln!("unknown engine {e:?} in replay file");
             std::process::exit(2);
